@@ -124,6 +124,66 @@ def plan_C03(chk, tier, seed):
             "IsCanonical in the trace specification")
 
 
+def simulated_sessions(chk, cfg, nbeh, seed, run, props):
+    """TLC -simulate: random behaviours of the session machine (up to 8 exchanges each over one
+    transport buffer); each behaviour is replayed as ONE session through the real code with one
+    real buffer object reused from exchange to exchange."""
+    cfgtext = scenario_cfg(cfg, "MC_SimCases", ["TypeOK", "ExchangeDispatch", "ExchangeAnswer", "Emit"], max_exchanges=8)
+    r = tlc("MC_Session", cfgtext, run, workers=1, timeout=1800, simulate=(nbeh, 60, seed + 1))
+    if not r["ok"]:
+        raise ToolError("TLC simulation %s failed:\n%s" % (run, "\n".join(r["log"][-30:])))
+    chk.add_tlc(r)
+    sessions, cur = [], None
+    for line in open(r["vec_path"]):
+        v = json.loads(line)
+        if v.get("op") != "exchange":
+            continue
+        if v["nexch"] == 0 or cur is None:
+            cur = {"op": "session", "tag": "simulated-session", "cap": v["cap"], "steps": [], "exp": {"steps": []}}
+            sessions.append(cur)
+        cur["steps"].append({"wire": v["wire"], "script": v["script"], "hasLb": v["hasLb"], "respv": v["respv"], "stale": v["stale"]})
+        cur["exp"]["steps"].append(v["exp"])
+    # identical behaviours are replayed once
+    uniq = {json.dumps(x, sort_keys=True): x for x in sessions}
+    sessions = list(uniq.values())
+    vp = os.path.join(WORK, "tlc", run + ".sessions.vec")
+    with open(vp, "w") as f:
+        for x in sessions:
+            f.write(json.dumps(x, separators=(",", ":")) + "\n")
+    log("TLC %s: %d states checked, %d distinct behaviours of up to 8 exchanges" % (run, r["distinct"], len(sessions)))
+    summary, recs = replay(cfg, vp, run + ".sessions")
+    chk.replayed += sum(len(x["steps"]) for x in sessions)
+    if sessions:
+        chk.sample({"op": "session", "cap": sessions[0]["cap"], "n_steps": len(sessions[0]["steps"]),
+                    "first_step_wire": sessions[0]["steps"][0]["wire"][:40]})
+    bad = [x for x in recs if x.get("outcome") in ("panic", "hang") or x.get("match") is False]
+    # a deviating session is cut into its exchanges (each with the buffer contents the model says
+    # the previous exchange left) and adjudicated by the trace specification
+    events = []
+    for x in bad:
+        vec = x["vector"]
+        for i, st in enumerate(vec["steps"]):
+            obs_steps = (x.get("obs") or {}).get("steps") or []
+            if i >= len(obs_steps):
+                break
+            events.append({"op": "exchange", "outcome": x["outcome"] if x["outcome"] != "return" else "return",
+                           "in": {"op": "exchange", "tag": "simulated-session", "wire": st["wire"], "script": st["script"],
+                                  "hasLb": st["hasLb"], "respv": st["respv"], "cap": vec["cap"], "stale": st["stale"], "props": props},
+                           "obs": obs_steps[i], "cfg": cfg})
+        if x["outcome"] != "return":
+            chk.violation({"cfg": cfg, "vector": vec, "outcome": x["outcome"], "msg": x.get("msg", "")},
+                          "session replay: outcome=%s %s" % (x["outcome"], x.get("msg", "")))
+    for i, e in enumerate(events):
+        e["line"] = i
+    if events:
+        verdicts, stats = validate(cfg, events[:300], run + ".adj")
+        for st in stats:
+            chk.add_tlc(st)
+        for e in events[:300]:
+            if chk.prop in verdicts[e["line"]]["violated"]:
+                chk.violation(e, "simulated session: exchange deviates from the specification")
+
+
 def plan_C17(chk, tier, seed):
     cfgs = ["none", "all"]
     inv = ["TypeOK", "FitsOrOneByteError", "Emit"]
@@ -151,11 +211,15 @@ def plan_C17(chk, tier, seed):
     log("TLC %s: %d distinct states, %d vectors, %.1fs" % (run, r["distinct"], r["n_vec"], r["wall"]))
     chk.add_tlc(r)
     judge_vectors(chk, "all", r, run, ["C17"])
+    simulated_sessions(chk, "all", 300 if tier == "quick" else 5000, seed, "C17.sim", ["C17"])
     return ("responses whose message length L is tuned so that L-N covers -3..2 for every instantiated capacity N "
             "(1..130, 254..258, 1022..1026, 3070..3074, 64, 256, 1024, 3072, 7609), all-unset and body-less "
             "responses at N=1,2,3, planted previous contents, two-exchange histories over a reused buffer; the "
             "harness additionally serialises every response into a buffer with different previous contents and "
-            "into the 7609-byte buffer; judged on the observed bytes: complete message iff it fits, else exactly 0x7F")
+            "into the 7609-byte buffer; the full response of every kind against EVERY capacity up to its length; "
+            "complete exchanges (decode, dispatch, encode) in two-exchange histories with the liveness property "
+            "ExchangeTerminates; random behaviours of up to 8 exchanges from tlc -simulate replayed as sessions over "
+            "one real buffer object; judged on the observed bytes: a complete message iff it fits, else exactly 0x7F")
 
 
 def judge_vectors(chk, cfg, r, run, props):
